@@ -746,6 +746,7 @@ def _roundtrip(ctx, rng, h, bname, plain, rewrite_tags):
     # ---- attribution aid 1 (never a verdict by itself): per commit, do the file commands - read with git-fast-import's documented
     #      sequential semantics and applied to the source tree of the 'from' parent - yield the source tree of the revision?
     e_problem = {}  # mark -> (family key, message, detail)
+    e_soft = {}
     roles_by_mark, cmds_by_mark = {}, {}
     try:
         commits, resets = sm.parse_commits(data)
@@ -775,6 +776,8 @@ def _roundtrip(ctx, rng, h, bname, plain, rewrite_tags):
             diffs = _diff_maps(want, sm.prune_empty_dirs(model))
             fatal = sorted({n[0] for n in notes if n[0] in ("delete-of-path-reoccupied-in-same-commit", "rename-of-missing-path",
                                                            "copy-of-missing-path", "unknown-file-command")})
+            if not fatal and any(n[0] == "delete-by-old-path-after-rename" for n in notes):
+                fatal = ["delete-by-old-path-after-rename"]  # harmless for git; only names the exporter if this commit goes wrong
             if diffs:
                 sym, p = diffs[0]
                 cls = _cls_of(d, p)
@@ -801,14 +804,18 @@ def _roundtrip(ctx, rng, h, bname, plain, rewrite_tags):
                 missing = [n[1] for n in notes if n[0] == fatal[0]]
                 if fatal[0] == "delete-of-path-reoccupied-in-same-commit":
                     key = "path-deleted-after-being-reoccupied"
+                elif fatal[0] == "delete-by-old-path-after-rename":
+                    key = "change-below-renamed-directory:old-path-used-after-the-rename"
                 elif fatal[0] == "rename-of-missing-path" and missing[0] in base:
                     # the source existed in the parent tree: an earlier command of the same commit destroyed or moved it
                     key = _export_family(plain, d, _cls_of(d, missing[0]), "rename-source-gone", missing[0], roles_by_mark[mark])
                 else:
                     key = fatal[0]  # (fixed) a rename of a path that never existed
-                e_problem[mark] = ("export:stream:%s" % key,
-                                   "commit %s (%s): %s %r (revision did: %s)" % (mark.decode(), r.decode(), fatal[0], missing[:4], d.classes[:8]),
-                                   {"revision": r.decode(), "mark": mark.decode(), "commands": cmds_by_mark[mark], "delta": d.classes[:30]})
+                # a command git merely ignores is only a last-resort explanation (e_soft): used when nothing else explains the commit
+                (e_soft if fatal[0] == "delete-by-old-path-after-rename" else e_problem)[mark] = (
+                    "export:stream:%s" % key,
+                    "commit %s (%s): %s %r (revision did: %s)" % (mark.decode(), r.decode(), fatal[0], missing[:4], d.classes[:8]),
+                    {"revision": r.decode(), "mark": mark.decode(), "commands": cmds_by_mark[mark], "delta": d.classes[:30]})
             if mark in e_problem:
                 ctx.hist("stream differs from git semantics at a commit (attribution aid)")
     # ---- import
@@ -822,8 +829,8 @@ def _roundtrip(ctx, rng, h, bname, plain, rewrite_tags):
         if m:
             failing = m.group(1).encode()
         earlier = [m_ for m_, _f, _mg, _fc, _c in commits if m_ in e_problem and failing is not None and int(m_) < int(failing)]
-        if failing in e_problem:
-            key, msg, det = e_problem[failing]
+        if failing in e_problem or failing in e_soft:
+            key, msg, det = e_problem.get(failing) or e_soft[failing]
             ctx.fail(key, "%s; the importer then raised %s@%s on that commit" % (msg, e.typename, e.where),
                      dict(detail, importer_error=e.text[:600], **det))
         elif earlier:
@@ -1004,6 +1011,9 @@ def _roundtrip(ctx, rng, h, bname, plain, rewrite_tags):
                 key, msg, d2 = e_problem[mark]
                 ctx.fail(key, base_msg + "; exporter side: " + msg + " (the importer does not follow the commands literally either: %s)"
                          % i_problem[mark][0], dict(det, **d2))
+            elif mark in e_soft:
+                key, msg, d2 = e_soft[mark]
+                ctx.fail(key, base_msg + "; exporter side: " + msg, dict(det, **d2))
             else:
                 earlier = [m_ for m_, _f, _mg, _fc, _c in commits if m_ in e_problem and int(m_) < int(mark)]
                 if earlier:
